@@ -82,7 +82,11 @@ BenignOver(cl, a, R, cutsets) ==
            {Exch(cl, a, R, WithEmpties(ChunkScript(Len(R), cuts), e, 1), "none", 0, 0) :
                 e \in (IF Cardinality(cuts) <= 2 \/ Thorough THEN EmptyKinds(cl) ELSE {"deadline"})} :
            cuts \in cutsets}
-Benign(cl, a, R) == BenignOver(cl, a, R, CutSets(Len(R)))
+\* the last bytes of the reply arrive in the same read as the end-of-stream indication (n > 0 together with EOF)
+LastEOF(sc) == [i \in 1..Len(sc) |-> IF i = Len(sc) THEN [sc[i] EXCEPT !.k = "chunkeof"] ELSE sc[i]]
+Benign(cl, a, R) ==
+    BenignOver(cl, a, R, CutSets(Len(R)))
+    \cup {Exch(cl, a, R, LastEOF(ChunkScript(Len(R), cuts)), "none", 0, 0) : cuts \in {x \in CutSets(Len(R)) : Cardinality(x) <= 1}}
 \* for the many residue cases: all cut sets only of the shorter replies (measured: with all cut sets up to 13 bytes the
 \* thorough generator, then a single process, did not finish in 30 minutes)
 CutSetsR(L) == IF L <= (IF Thorough THEN 12 ELSE 9) THEN SUBSET (1..(L - 1)) ELSE {{}} \cup {{a} : a \in 1..(L - 1)} \cup {{a, b} : a, b \in 1..(L - 1)}
